@@ -231,6 +231,13 @@ ALL_EVS: list = []           # every function-level evaluation of this process (
 RETURN_AUDIT: list = []      # (module name, function name, line of the unread exit, its value, its guards, rules file:line of the reader)
 
 
+def _self_attr(v) -> bool:
+    """`buf = self.work_array`: a local bound to an attribute of self is that attribute's object -- writes through the local are writes to
+    the attribute (the term stays `self.work_array`, so rules that follow the attribute see them)."""
+    a = v.as_atom() if v is not None else None
+    return bool(a and a[0] == "attr" and a[1].key() == "self")
+
+
 class Returns(list):
     """The return events of one evaluation.
 
@@ -431,7 +438,7 @@ class Ev:
             self.emit("assign", st, target=P.name(t.id), value=v, name=t.id, extra={"local": atom})
             return
         if isinstance(t, ast.Name):
-            if t.id in self.mutated and not _is_obj(v) and t.id not in self.param_names:
+            if t.id in self.mutated and not _is_obj(v) and t.id not in self.param_names and not _self_attr(v):
                 # a local container that is modified in place keeps its identity instead of being inlined
                 v = P.atom(("obj", t.id, self.obj_counter, v))
                 self.obj_counter += 1
